@@ -683,8 +683,8 @@ def cmdScale : P String := do
   expect "|"
   let bad ← nat
   let first ← tok
-  let feats := s!"nt=1 scenario={scen} n={if scen == "hugeframe" then n / 1048576 else n}"
-  let prop := if scen == "hugeframe" then "C03" else "C01"
+  let feats := s!"nt=1 scenario={scen} n={if scen == "hugeframe" || scen == "overlap" then n / 1048576 else n}"
+  let prop := if scen == "hugeframe" || scen == "overlap" then "C03" else if scen == "closetwice" then "C02" else "C01"
   if bad != 0 then
     return s!"DIFF {prop} {scen}-at-scale-{first} bad={bad} {feats}"
   return s!"OK {feats}"
